@@ -785,6 +785,47 @@ def check_axisangle_structure(ctx: Check, tree: Tree) -> None:
             mtxt = " ".join(unparse(d.value) for d in rd.closure(rd.uses(mp)) if isinstance(d.value, ast.AST)) if mp is not None else ""
             if early and f"__GREEK_INDEX_NAMES[len({early[0].value.id}.indices)]" not in mtxt.replace(" ", "").replace("len(", "len(") and "__GREEK_INDEX_NAMES[len(" not in mtxt:
                 problems.append("the Wigner rotation's summation index is not the next free index name")
+    # both kinds of rotation act on the SAME outer index: the spin-projection symbol of the rotated state.
+    # A value that can be None makes formulate_wigner_rotation fall back to the concrete projection of
+    # one transition: the D-matrix row is then fixed instead of summed, the rotation no longer unitary.
+    def bound_symbol(call: ast.Call, callee_q: str, pname: str):
+        target = tree.funcs.get(callee_q)
+        if target is None:
+            return None
+        for k in call.keywords:
+            if k.arg == pname:
+                return k.value
+        if pname in target.params:
+            i = target.params.index(pname)
+            if i < len(call.args) and not any(isinstance(a, ast.Starred) for a in call.args[: i + 1]):
+                return call.args[i]
+        return None
+
+    def never_none_symbol(e, depth=0) -> bool:
+        if e is None or depth > 4:
+            return False
+        if isinstance(e, ast.Call) and unparse(e.func).endswith("create_spin_projection_symbol") and len(e.args) == 1 and unparse(e.args[0]) == fn.params[1]:
+            return True
+        if isinstance(e, ast.BoolOp) and isinstance(e.op, ast.Or):
+            return never_none_symbol(e.values[-1], depth + 1)
+        if isinstance(e, ast.IfExp):
+            return never_none_symbol(e.body, depth + 1) and never_none_symbol(e.orelse, depth + 1)
+        if isinstance(e, ast.Name):
+            defs = list(rd.reaching(e))
+            return bool(defs) and all(d.value is not None and d.index is None and never_none_symbol(d.value, depth + 1) for d in defs)
+        return False
+
+    bound = []
+    for suffix, q in (("formulate_helicity_rotation_chain", f"{mod}::formulate_helicity_rotation_chain"), ("formulate_wigner_rotation", f"{mod}::formulate_wigner_rotation")):
+        for c in [c for c in walk_function(fn.node) if isinstance(c, ast.Call) and unparse(c.func).endswith(suffix)]:
+            e = bound_symbol(c, q, "helicity_symbol")
+            bound.append((suffix, e))
+            if e is None:
+                problems.append(f"{suffix}(...) is called without the outer helicity symbol (falls back to the concrete projection of one transition)")
+            elif not never_none_symbol(e):
+                problems.append(f"{suffix}(... helicity_symbol=`{unparse(e)[:50]}`) is not always create_spin_projection_symbol({fn.params[1]}): it may be None / another symbol")
+    if len(bound) < 2:
+        raise AnalysisError(f"{fn.qual}: expected calls of formulate_helicity_rotation_chain and formulate_wigner_rotation")
     ctx.verdict(not problems, "R-WIRING", f"{fn.qual}::wigner-iff-nested", tree.loc(fn.node),
                 "formulate_rotation_chain: one helicity rotation -> returned alone; more -> times the Wigner rotation with the next free summation index", problems or None)
     # (b)
